@@ -258,8 +258,9 @@ Record ropts := mkRO { r_ws : bool; r_rev : bool; r_bylex : bool; r_limit : bool
 Definition ropts0 := mkRO false false false false.
 Inductive ropt_res := ROk (o : ropts) | RSyntax | RByScore.
 
-(* the option loop; BYSCORE answers with an empty array on the spot, LIMIT consumes (and checks)
-   offset and count, any other word is a syntax error *)
+(* the option loop: WITHSCORES and REV in any letter case; BYSCORE, BYLEX and LIMIT are not
+   supported and, like any other word, are a syntax error (so r_bylex / r_limit are never set and
+   RByScore never arises: kept so that statements about them stay meaningful) *)
 Fixpoint zrange_opts (l : list bytes) (o : ropts) : ropt_res :=
   match l with
   | [] => ROk o
@@ -267,17 +268,6 @@ Fixpoint zrange_opts (l : list bytes) (o : ropts) : ropt_res :=
     let lw := lower w in
     if is lw (B "withscores") then zrange_opts r (mkRO true (r_rev o) (r_bylex o) (r_limit o))
     else if is lw (B "rev") then zrange_opts r (mkRO (r_ws o) true (r_bylex o) (r_limit o))
-    else if is lw (B "limit") then
-      match r with
-      | off :: cnt :: r' =>
-        match atoi64 off, atoi64 cnt with
-        | Some _, Some _ => zrange_opts r' (mkRO (r_ws o) (r_rev o) (r_bylex o) true)
-        | _, _ => RSyntax
-        end
-      | _ => RSyntax
-      end
-    else if is lw (B "byscore") then RByScore
-    else if is lw (B "bylex") then zrange_opts r (mkRO (r_ws o) (r_rev o) true (r_limit o))
     else RSyntax
   end.
 
